@@ -103,6 +103,28 @@ func (w *World) maxRefreshing() int {
 // end while the driver still holds one of the call's goroutines at a lock).
 func (w *World) heldCalls(parked []*kernel.Parked) (map[string]bool, time.Duration) {
 	limit := time.Duration(1 << 62)
+	// A group race starts its later requests on a whole-second grid from the call's start; the goroutines woken there
+	// park at the next seam. A clock step that crosses such an instant *and* the call's deadline would let the deadline
+	// fire while they stand there, and what the call then returns (its SCTs are complete, its context has ended) is
+	// decided by which of the goroutines woken by the deadline runs first - not by the driver (self-test: C17lock seed
+	// 5126 at GOMAXPROCS 1 vs 16). So the deadline is only crossed once no grid instant lies before it.
+	now := w.s.Now()
+	for _, c := range w.calls {
+		if c.Deadline == 0 || c.ctx == nil {
+			continue
+		}
+		c.mu.Lock()
+		done := c.Done
+		c.mu.Unlock()
+		rem := c.StartAt + c.Deadline - now
+		if done || rem <= 0 {
+			continue
+		}
+		el := now - c.StartAt
+		if nextGrid := (el/time.Second+1)*time.Second - el; nextGrid < rem && rem < limit {
+			limit = rem
+		}
+	}
 	if w.rt == nil {
 		return nil, limit
 	}
